@@ -298,6 +298,19 @@ def operand_pair(draw, curved=False, kinds=None, nk=None):
     else:
         nkk, deg = (nk or draw(st.sampled_from(S.NUMKINDS))), (1,)
     R = S.base_radius(nkk)
+    if curved and draw(st.integers(0, 3)) == 0:
+        # "lens" family: two blobs of 3-4 purely curved arcs that overlap, so
+        # that A & B (and the hole of A ^ B) is bounded by exactly two arcs
+        dg = (2,) if draw(st.booleans()) else (3,)
+        a = {"k": "simple", "curve": draw(S.star_curve("float", (0.0, 0.0), 0.7 * R, R, (3, 4), dg, draw(st.integers(0, 5)) == 0))}
+        ang = draw(st.floats(0, 6.283))
+        dist_ = R * draw(st.sampled_from([0.9, 1.1, 1.3]))
+        import math as _m
+
+        off = (dist_ * _m.cos(ang), dist_ * _m.sin(ang))
+        b = {"k": "simple", "curve": draw(S.star_curve("float", off, 0.7 * R, R, (3, 4), dg, False))}
+        us = draw(st.lists(st.floats(0.0, 1.0), min_size=12, max_size=12))
+        return {"a": a, "b": b, "config": "lens", "us": us, "nk": "float", "deg": list(dg)}
     # Empty / Whole operands are the trivial short-cuts: one draw in ten
     kinds = kinds or (S.KINDS[2:] * 3 + S.KINDS[:2])
     a = draw(S.shape_spec(nkk, deg, kinds=kinds, templates=not curved))
